@@ -213,7 +213,9 @@ def build():
             if rng.random() < 0.05:
                 meta_attrs["nillable"] = True
             namespace["Meta"] = type("Meta", (), meta_attrs)
-        bases = (base_spec.cls,) if base_spec else (GenBase,)
+        # a private, field-less base per class carries the address-independent hash: a *shared* base would make
+        # unrelated classes "siblings" for xsi:type substitution (XmlContext.find_subclass)
+        bases = (base_spec.cls,) if base_spec else (StableHashMeta(f"_Hash{i}", (), {"__slots__": ()}),)
         cls = dataclasses.make_dataclass(name, dc_fields, bases=bases, namespace=namespace, kw_only=True)
         cls.__module__ = MODULE
         cls.__qualname__ = name
